@@ -36,6 +36,22 @@ pub fn vf_ids_not_in(lo: u32, n: u32, set: &HashSet<u32>) -> (r: Vec<u32>)
         forall|j: int, k: int| 0 <= j < k < r.len() ==> #[trigger] r[j] < #[trigger] r[k],
         forall|v: u32| lo <= v < n && !set@.contains(v) ==> exists|k: int| 0 <= k < r.len() && #[trigger] r[k] == v,
 { (lo..n).filter(|i| !set.contains(i)).collect() }
+// S4 / S5: only reached by a rewrite of boundary_first_flatten that starts the loop at its smallest vertex id (notes/c20_fix.diff)
+//   S4  `(0..L.len()).min_by_key(|&k| L[k]).unwrap_or(0)` is a position of L (0 for an empty L)              (R12 vf_argmin_u32)
+//   S5  `let mut R = L.clone(); R.rotate_left(M);` (M <= len, std panics otherwise) is a rotation of L: same length, every
+//       entry of R is an entry of L and conversely                                                           (R12 vf_rotated_left)
+#[verifier::external_body]
+pub fn vf_argmin_u32(l: &Vec<u32>) -> (r: usize)
+    ensures l.len() == 0 ==> r == 0, l.len() > 0 ==> r < l.len(),
+{ (0..l.len()).min_by_key(|&k| l[k]).unwrap_or(0) }
+#[verifier::external_body]
+pub fn vf_rotated_left(l: &Vec<u32>, mid: usize) -> (r: Vec<u32>)
+    requires mid <= l.len(),
+    ensures r.len() == l.len(), forall|k: int| 0 <= k < r.len() ==> l@.contains(#[trigger] r[k]), forall|k: int| 0 <= k < l.len() ==> r@.contains(#[trigger] l[k]),
+{ let mut r = l.clone(); r.rotate_left(mid); r }
+// `V.iter().any(|row| !row[0].is_finite() || !row[1].is_finite())` : no contract (the real model has no non-finite value)
+#[verifier::external_body]
+pub fn vf_any_row_not_finite(v: &Vec<[f64; 2]>) -> (r: bool) { v.iter().any(|row| !row[0].is_finite() || !row[1].is_finite()) }
 #[verifier::external_body]
 pub fn vf_rows_to_points(v: &Vec<[f64; 2]>) -> (r: Vec<Point2>)
     ensures r.len() == v.len(), forall|k: int| 0 <= k < v.len() ==> (#[trigger] r[k]).x == v[k][0] && r[k].y == v[k][1],
